@@ -13,7 +13,7 @@ __CPROVER_requires(__CPROVER_is_fresh(index2_iter->m, sizeof(SparseM)) && Sparse
 /* both iterators valid (the callers test `it1 && it2` before the call) */
 __CPROVER_requires(0 <= index1_iter->m_id && index1_iter->m_id < index1_iter->m_end && index1_iter->m_end <= index1_iter->m->nnz)
 __CPROVER_requires(0 <= index2_iter->m_id && index2_iter->m_id < index2_iter->m_end && index2_iter->m_end <= index2_iter->m->nnz)
-__CPROVER_requires(index1_iter->m->gpos == -1 && index2_iter->m->gpos == -1)
+__CPROVER_requires(0 <= index1_iter->m_outer && index1_iter->m_outer < index1_iter->m->outerSize && 0 <= index2_iter->m_outer && index2_iter->m_outer < index2_iter->m->outerSize)
 __CPROVER_assigns(index1_iter->m_id, index2_iter->m_id)
 /* equal indices: nothing moves, result true */
 __CPROVER_ensures(__CPROVER_return_value ==
@@ -28,13 +28,22 @@ __CPROVER_ensures((!__CPROVER_return_value && index1_iter->m_id != __CPROVER_old
    index1_iter->m->inner[index1_iter->m_id] >= index2_iter->m->inner[index2_iter->m_id])
 __CPROVER_ensures((!__CPROVER_return_value && index2_iter->m_id != __CPROVER_old(index2_iter->m_id) && index2_iter->m_id < index2_iter->m_end) ==>
    index2_iter->m->inner[index2_iter->m_id] >= index1_iter->m->inner[index1_iter->m_id])
+/* ghost position g of a matrix (arbitrary): the chase never skips a stored element whose index is >= the leader's index */
+__CPROVER_ensures((index1_iter->m->gpos >= 0 && index1_iter->m_outer == index1_iter->m->gouter && __CPROVER_old(index1_iter->m_id) <= index1_iter->m->gpos &&
+                   index1_iter->m->inner[index1_iter->m->gpos] >= __CPROVER_old(index2_iter->m->inner[index2_iter->m_id])) ==> index1_iter->m_id <= index1_iter->m->gpos)
+__CPROVER_ensures((index2_iter->m->gpos >= 0 && index2_iter->m_outer == index2_iter->m->gouter && __CPROVER_old(index2_iter->m_id) <= index2_iter->m->gpos &&
+                   index2_iter->m->inner[index2_iter->m->gpos] >= __CPROVER_old(index1_iter->m->inner[index1_iter->m_id])) ==> index2_iter->m_id <= index2_iter->m->gpos)
 //@loop 1
 __CPROVER_assigns(index1_iter->m_id)
 __CPROVER_loop_invariant(__CPROVER_loop_entry(index1_iter->m_id) <= index1_iter->m_id && index1_iter->m_id <= index1_iter->m_end)
+__CPROVER_loop_invariant((index1_iter->m->gpos >= 0 && index1_iter->m_outer == index1_iter->m->gouter && __CPROVER_loop_entry(index1_iter->m_id) <= index1_iter->m->gpos &&
+                          (unsigned long)index1_iter->m->inner[index1_iter->m->gpos] >= index2) ==> index1_iter->m_id <= index1_iter->m->gpos)
 __CPROVER_decreases(index1_iter->m_end - index1_iter->m_id)
 //@loop 2
 __CPROVER_assigns(index2_iter->m_id)
 __CPROVER_loop_invariant(__CPROVER_loop_entry(index2_iter->m_id) <= index2_iter->m_id && index2_iter->m_id <= index2_iter->m_end)
+__CPROVER_loop_invariant((index2_iter->m->gpos >= 0 && index2_iter->m_outer == index2_iter->m->gouter && __CPROVER_loop_entry(index2_iter->m_id) <= index2_iter->m->gpos &&
+                          (unsigned long)index2_iter->m->inner[index2_iter->m->gpos] >= index1) ==> index2_iter->m_id <= index2_iter->m->gpos)
 __CPROVER_decreases(index2_iter->m_end - index2_iter->m_id)
 //@end
 
